@@ -30,6 +30,21 @@ def gen_events(rec, r, n, wd, rep):
         if j % 2 == 0 and text:
             # the same file in another legal text layout (case, line width, separators, CRLF)
             L.rec_read(rec, L.reformat(r, text), key, j % 4 == 0, False, wd, auth=auth)
+        if j % 5 == 2 and text and f.components:
+            # a file whose payload was patched by hand (MACs now inconsistent), read WITHOUT MAC checking, then saved again with
+            # the same key: the saved file is an ordinary file of the content that was read (fresh, consistent MACs)
+            body_at = text.rfind("\n", 0, len(text) - 2)
+            line = text[body_at + 1:].rstrip("\n")
+            if len(line) >= 4:
+                k = len(line) - 3
+                patched = text[:body_at + 1] + line[:k] + ("0" if line[k] != "0" else "1") + line[k + 1:] + "\n"
+                try:
+                    g = L.read_text(patched, key, False, False, wd)
+                except Exception:                           # noqa: BLE001 -- refused even unchecked: nothing to save
+                    g = None
+                if g is not None:
+                    t2 = L.rec_write(rec, g, key, False, wd)
+                    L.rec_read(rec, t2, key, True, False, wd, auth=rec.last_written)
         if j % 4 == 1:
             # the same object edited and written again (and read back): nothing may survive from the first serialisation
             try:
@@ -62,6 +77,13 @@ def edge_files(r):
     out.append(L.Bf3File({"a": "1", "b": "2"}, [L.mk_comp({3: b"\x03", 1: b"\x01", 2: b"\x02"}, b"\xff" * 5, 3),
                                                  L.mk_comp({2: b"", 9: b"zz"}, b"\x00" * 16), L.mk_comp({}, b"\x00")]))
     out.append(L.Bf3File({"b": "2", "a": "1"}, []))
+    # tags the library interprets (FMT C1, ENC C2, TYPE C3, HWCID C4, REBOOT C5) with values that are numerically one of its
+    # constants but not the one-byte constant: to the format they are just tag values of a plain component
+    for t in (0xC1, 0xC2, 0xC3, 0xC4, 0xC5):
+        for k in (0, 1, 2, 3):
+            for v in (b"\x00" + bytes([k]), b"\x00\x00" + bytes([k]), bytes([k]) + b"\x00"):
+                n = 16 if (t + k + len(v)) % 2 else 15
+                out.append(L.Bf3File({}, [L.mk_comp({t: v}, bytes(range(1, n + 1))), L.mk_comp({}, b"\x05")]))
     # the SAME component object listed twice (and with another one between): two entries, two payloads
     c = L.mk_comp({0x21: b"twice"}, bytes(range(1, 23)))
     out.append(L.Bf3File({}, [c, c]))
